@@ -106,6 +106,8 @@ pub struct Tuple {
     /// the cooperative scheduler (they announce before opening the output, before their first writes to it, before rename/flock);
     /// whenever both wait, character k of the schedule says who goes. Both must succeed and the shared output must be right.
     pub overlap: Option<(usize, String)>,
+    /// every stage (and `run`) starts in a working directory that was deleted under it; all paths it is given are absolute
+    pub deleted_cwd: bool,
 }
 
 pub const INPUT_NAMES: &[&str] = &["prog.fml", "prog.fml", "job.1.fml", "my prog.fml", "prog.v2.final.fml", "прог.fml", "noext", "a.b", "UPPER.FML", "x.json.fml", "trailing.dot..fml"];
@@ -116,7 +118,7 @@ impl Tuple {
                "compile_flag": self.compile_flag, "compile_stdin": self.compile_stdin, "compile_out": self.compile_out.name(), "exec_stdin": self.exec_stdin,
                "profile": self.profile.name(), "plans": self.plans, "wrapper": self.wrapper, "input_name": self.input_name, "stale": self.stale, "hash_seed": self.hash_seed, "hard_stage": self.hard_stage, "wrapper_stages": self.wrapper_stages, "guest_stdout_fault": self.guest_stdout_fault,
                "crash_before": self.crash_before.as_ref().map(|(s, p)| json!([s, p])), "live": self.live,
-               "overlap": self.overlap.as_ref().map(|(s, p)| json!([s, p]))})
+               "overlap": self.overlap.as_ref().map(|(s, p)| json!([s, p])), "deleted_cwd": self.deleted_cwd})
     }
     pub fn from_json(v: &Value) -> Option<Tuple> {
         let plans = v.get("plans")?.as_array()?;
@@ -141,6 +143,7 @@ impl Tuple {
             crash_before: v.get("crash_before").and_then(|x| x.as_array()).and_then(|a| Some((a.get(0)?.as_u64()? as usize, a.get(1)?.as_str()?.to_string()))),
             live: v.get("live").and_then(|x| x.as_bool()).unwrap_or(false),
             overlap: v.get("overlap").and_then(|x| x.as_array()).and_then(|a| Some((a.get(0)?.as_u64()? as usize, a.get(1)?.as_str()?.to_string()))),
+            deleted_cwd: v.get("deleted_cwd").and_then(|x| x.as_bool()).unwrap_or(false),
         })
     }
 
@@ -184,13 +187,14 @@ impl Tuple {
             crash_before: None,
             live: false,
             overlap: None,
+            deleted_cwd: rng.below(14) == 0,
         }
     }
 
     pub fn plain(format: Fmt, profile: Profile) -> Tuple {
         Tuple { format, parse_flag: Some(format.ext().to_string()), parse_stdin: false, parse_out: Chan::OFile, compile_flag: None, compile_stdin: false,
                 compile_out: Chan::OFile, exec_stdin: false, profile, plans: [String::new(), String::new(), String::new()], wrapper: false,
-                input_name: "prog.fml".into(), stale: false, hash_seed: 11, hard_stage: None, wrapper_stages: false, guest_stdout_fault: String::new(), crash_before: None, live: false, overlap: None }
+                input_name: "prog.fml".into(), stale: false, hash_seed: 11, hard_stage: None, wrapper_stages: false, guest_stdout_fault: String::new(), crash_before: None, live: false, overlap: None, deleted_cwd: false }
     }
 }
 
@@ -308,7 +312,7 @@ fn count_faults(trace: &str) -> u64 {
 
 /// A stage's child: the binary itself, or the wrapper script under bash forwarding to it.
 fn stage_child(t: &Tuple, argv: &[&str]) -> Child {
-    if !t.wrapper_stages { return Child::new(t.profile, argv); }
+    if !t.wrapper_stages { let mut c = Child::new(t.profile, argv); c.deleted_cwd = t.deleted_cwd; return c; }
     let script = work::repo_root().join("fml");
     let mut full: Vec<&str> = vec![script.to_str().unwrap()];
     full.extend_from_slice(argv);
@@ -903,6 +907,7 @@ pub fn minimise(case: &Case, oracle: &str) -> Case {
     try_field!(wrapper_stages);
     try_field!(crash_before);
     try_field!(overlap);
+    try_field!(deleted_cwd);
     try_field!(guest_stdout_fault);
     try_field!(exec_stdin);
     try_field!(compile_out);
